@@ -232,7 +232,7 @@ CHECKS = {
              "by post-condition (2.7k quick / 21.6k thorough cases, 110 / 1.4k solver runs).",
         note="bridges: table-driven conditions/constraints; solver post-conditions on linear conditions with >=2 feasible "
              "lattice points at tol 1e-2 (the docs promise no accuracy), the default differential-evolution solver judged only "
-             "by elitism and a >=90% success rate; specs/cons/Penalty.tla is a link to ../pen/Penalty.tla.  "
+             "by elitism and a >=90% success rate; Bridges.tla instantiates specs/cons/PenaltyC17.tla, a frozen copy of the value formulas of pen/Penalty.tla.  "
              "trusted: TLC, the transcription of the loops, table-driven members (snapped floats), interning of float vectors; "
              "premises: members deterministic and total, penalty members non-negative at iteration 0; members that raise are "
              "out of scope (and_ swallows TypeError/ValueError from members: observation recorded in the evidence, not judged)",
